@@ -1,2 +1,6 @@
 //! E4 SimCPU (placeholder until built).
+use libc::{c_int, siginfo_t, ucontext_t};
 pub fn panic_hook_notify() {}
+pub unsafe fn on_signal(_sig: c_int, _info: *mut siginfo_t, _uc: &mut ucontext_t) -> bool {
+    false
+}
